@@ -9,19 +9,21 @@ package oras
 //@ import descriptor "oras.land/oras-go/v2/internal/descriptor"
 //@
 //@ ghost rfSrc(k int) int
+//@ ghost rfPos(m int) int
 //@
 //@ func removeForeignLayers
 //@   loop 0 invariant [bounds] 0 <= j && j <= $i && $i <= len(descs)
 //@   loop 0 invariant [unread] forall m int :: $i <= m && m < len(descs) ==> descs[m] == old(descs[m])
 //@   loop 0 invariant [C01:kept] forall k int :: 0 <= k && k < j ==> 0 <= rfSrc(k) && rfSrc(k) < $i && descs[k] == old(descs[now(rfSrc(k))]) && !isForeign(descs[k])
 //@   loop 0 invariant [C01:order] forall k, l int :: 0 <= k && k < l && l < j ==> rfSrc(k) < rfSrc(l)
-//@   loop 0 invariant [C01:complete] forall m int :: 0 <= m && m < $i && !isForeign(old(descs[m])) ==> (exists k int :: 0 <= k && k < j && rfSrc(k) == m)
+//@   loop 0 invariant [C01:complete] forall m int :: 0 <= m && m < $i && !isForeign(old(descs[m])) ==> 0 <= rfPos(m) && rfPos(m) < j && rfSrc(rfPos(m)) == m
 //@   loop 0 backedge set rfSrc(j) = next.j != j ? $i : rfSrc(j)
+//@   loop 0 backedge set rfPos($i) = next.j != j ? j : rfPos($i)
 //@   ensures [C01:len] len(result) <= len(descs)
 //@   ensures [C01:kept] forall k int :: 0 <= k && k < len(result) ==> 0 <= rfSrc(k) && rfSrc(k) < len(descs) && result[k] == old(descs[now(rfSrc(k))]) && !isForeign(result[k])
 //@   ensures [C01:order] forall k, l int :: 0 <= k && k < l && l < len(result) ==> rfSrc(k) < rfSrc(l)
 //@   ensures [C01:complete] forall m int :: 0 <= m && m < len(descs) && !isForeign(old(descs[m])) ==> (exists k int :: 0 <= k && k < len(result) && rfSrc(k) == m)
-//@   modifies elems[ocispec.Descriptor], ghost.rfSrc
+//@   modifies elems[ocispec.Descriptor], ghost.rfSrc, ghost.rfPos
 //@
 //@ // ---------------------------------------------------------------- pack (C19)
 //@ import content "oras.land/oras-go/v2/content"
